@@ -814,7 +814,7 @@ check_c05 = parser_check(
     "multi-byte identifiers, strings and comments, plus 1-3 token mutations of them and token soup; every ACCEPTED input is judged: "
     "each position must hold the lexeme its node names (table in tools/pfam.py), pairs open before close, inner children strictly "
     "between, identifier/literal leaves in source order; crate and model compared on the tree with all positions; non-trivial = accepted inputs",
-    lambda run: fam_valid_mut_soup(250, 2, 300)(run) + pfam.position_directed_cases() + pfam.comment_injection_cases(), nontrivial=accepted)
+    lambda run: fam_valid_mut_soup(250, 2, 300)(run) + pfam.position_directed_cases() + pfam.comment_injection_cases() + pfam.line_end_comment_cases(), nontrivial=accepted)
 
 def order_cases():
     """the order the grammar fixes between top-level parts: package clause, imports, other declarations"""
@@ -828,6 +828,11 @@ def order_cases():
             out.append(pfam.Case("package p\n\n%s\n\n%s\n" % (i, d), "F-order"))
             out.append(pfam.Case("%s\n\npackage p\n\n%s\n" % (i, d), "F-order"))
             out.append(pfam.Case("package p; %s; %s; package q" % (i.replace("\n", " ").replace("( ", "(").replace("\t", ""), d), "F-order"))
+    # what follows a branch keyword on its line is a label, the next statement, or an error: never dropped
+    for kw in ("break", "continue", "goto", "fallthrough", "return"):
+        for rest in ("x", "x; y()", "x <- 1", "x++", "x.y()", "x, y = 1, 2", "x := 1", "\n\tx()", "; x()", "L\n\tz()", "1", "x y", "(x)"):
+            for ctx in ("func f() { for { %s } }", "func f() { switch { case a: %s\n\tcase b: } }", "func f() { L: for { select { case <-c: %s } } }"):
+                out.append(pfam.Case("package p\n" + ctx % (kw + " " + rest) + "\n", "F-branch"))
     return out
 
 
@@ -846,7 +851,7 @@ check_c11 = parser_check(
     "generated valid programs rendered with comments in random gaps (style comments: line and general comments, multi-byte, "
     "inside type-parameter lists, interface and struct bodies, at line ends) and accepted mutants; the comment tokens of the hook's "
     "token dump must equal File.comments (offset and text); non-trivial = accepted inputs containing at least one comment",
-    lambda run: fam_valid_mut_soup(300, 1, 0, styles=("comments", "comments", "random"))(run) + pfam.comment_injection_cases(),
+    lambda run: fam_valid_mut_soup(300, 1, 0, styles=("comments", "comments", "random"))(run) + pfam.comment_injection_cases() + pfam.line_end_comment_cases(),
     nontrivial=lambda c, l: l.startswith("OK ") and ("/*" in c.src or "//" in c.src))
 
 
@@ -1909,6 +1914,19 @@ def check_c01(run, replay):
                           "parse_file on a file with%s byte order mark (%s build) returns" % ("" if bom else "out", name))
         finally:
             shutil.rmtree(base_d, ignore_errors=True)
+    # parenthesised operands on every spine of an array length / type-parameter list that starts with an identifier
+    # (the helpers that inspect the expression after the fact recurse outside the counted hubs); one process per
+    # input and a short limit, so that a hang costs seconds
+    spine = ["N * (M + 1)", "w * -(d)", "lo | (hi)", "align(2 * (n + 1))", "size((n))", "P *(C)", "P (C)", "a * (b)", "a * ((b))", "f((a), (b))",
+             "a | (b) | c", "a * (b | c)", "P *(C) | D", "P (C) | (D)", "a + (b) * c", "a[(i)]", "a.b * (c)", "P ~(C)", "P interface{ (C) }", "a * (*b)",
+             "a, (b)", "P *(C), Q any", "a * func() int { return (1) }()", "a * [2]int{(1)}[0]", "a &^ (b)", "a <- (b)", "(a)", "(a) * b"]
+    sp_cases = [pfam.Case("package p\n" + ctx % e + "\n", "F-spine-parens") for e in spine
+                for ctx in ("type T [%s]byte", "type T[%s] struct{}", "func f() { type T [%s]byte }", "var x [%s]byte", "type T[%s] = int")]
+    for b, name in ((gv, "release"), (gvd, "debug")):
+        res = vlib.par([[b, "outcome"] for _ in sp_cases], timeout=25, stdin=[vlib.frame([c.src]) for c in sp_cases])
+        lines = [(o.split("\n")[0] if rc == 0 and o else "DIED rc=%d %s" % (rc, (e or "")[-120:].replace("\n", " "))) for rc, o, e in res]
+        fam.judge(sp_cases, lines, [None] * len(sp_cases), [None] * len(sp_cases), "outcome", no_crash,
+                  "%s build: parenthesised operands on the spine of a speculative type-declaration bracket" % name)
     time_growth(run, fam, gv)
     impl, mod, toks = fam.exec(nest_small)
     fam.judge(nest_small, impl, mod, toks, "errloc", no_crash, "nesting around the caps: crate == model incl. where the depth error is raised")
